@@ -84,6 +84,17 @@ def frames():
     mb, _, _ = R.build("1074", {"DF394": sat2, "DF395": sig2, "DF396": 0b1111}, "fp")
     out["FmsmA"] = frame_item("FmsmA", ma)
     out["FmsmB"] = frame_item("FmsmB", mb)
+    # frames whose CRC trailer holds bytes that other layers react to: line terminators, sync
+    # characters, all zero, all ones (built by solving for three payload bytes)
+    pre = ((4050 << 4) & 0xFFFF).to_bytes(2, "big") + b"\x11\x22"
+    for nm, tr in (("Fcrc0d0a", 0x770D0A), ("Fcrc0a", 0x12340A), ("Fcrc24", 0x563424), ("FcrcB5", 0x1278B5),
+                   ("FcrcD3", 0x4567D3), ("Fcrc000", 0x000000), ("FcrcFFF", 0xFFFFFF),
+                   ("FcrcD300", 0xD30002)):
+        fr = pinned.frame_with_trailer(pre, tr, b"\x33")
+        out[nm] = {"name": nm, "data": fr, "kind": "frame", "payload": fr[3:-3]}
+    # a 4076 frame with a sub-type that has no definition (reserved for a constellation)
+    v4076, _ = pinned.header(4076, 250, 1)
+    out["F4076unk"] = frame_item("F4076unk", (v4076 << 1).to_bytes(3, "big") + _fp(9, 3))
     m64, _, _ = R.build("1077", {"DF394": (1 << 62) | 1, "DF395": 1 << 30, "DF396": 0b11}, "fp")
     out["Fmsm64"] = frame_item("Fmsm64", m64)  # satellite ID 64 (last mask bit) present
     _CACHE["frames"] = out
@@ -103,7 +114,10 @@ def wellformed(tier="quick"):
         {"name": "nFF0A62", "data": b"\xff\x0a\x62", "kind": "skip"},
         {"name": "nmeaP", "data": nmea("P", b"UBX,00,1*00"), "kind": "skip"},
         f["Fnested"], f["Fcol1"], f["Fcol2"], f["FmsmA"], f["FmsmB"], f["Fmsm64"],
+        f["Fcrc0d0a"], f["Fcrc24"], f["F4076unk"],
     ]
+    if tier == "thorough":
+        out += [f["Fcrc0a"], f["FcrcB5"], f["FcrcD3"], f["Fcrc000"], f["FcrcFFF"], f["FcrcD300"]]
     if tier == "thorough":
         out += [f["F2b"], f["F255"], f["F256"],
                 {"name": "nmeaE", "data": nmea("E"), "kind": "skip"}]
@@ -144,6 +158,14 @@ def hostile():
     out.append({"name": "Fshort1", "data": pinned.frame(b"\x3e")})
     for k in (3, 4, 5, 7):
         out.append({"name": f"trunc{k}", "data": f2[:k]})
+    # pseudo frames: a well-formed frame whose preamble byte was replaced and whose CRC was then
+    # recomputed over the bytes as they stand (only the 0xD3 test keeps them out)
+    for nm, lead in (("P24", 0x24), ("PB5", 0xB5)):
+        body = bytes([lead]) + f2[1:-3]
+        out.append({"name": nm, "data": body + pinned.crc24q_table(body).to_bytes(3, "big")})
+    # damage whose syndrome is all ones (a remainder reduced with % 0xFFFFFF would read as 0)
+    e = pinned.solve3(0xFFFFFF)
+    out.append({"name": "dmgFFFFFF", "data": f2[:-3] + bytes(a ^ b for a, b in zip(f2[-3:], e))})
     # frame-like items whose trailer is only "valid" when bytes left over from an aborted frame
     # are glued in front of them (state kept across an error path); each is invalid as it stands
     for nm, stale in (("Gstale3", f2[:3]), ("Gstale4", f2[:4]), ("Gstale19", frames()["F19"]["data"][:3])):
